@@ -158,6 +158,46 @@ class Path:
         return "\n".join(lines)
 
 
+def _induction_variables(paths, steps):
+    """A variable of a `while True` loop that starts at an integer constant k and that every continuing iteration leaves one higher is the
+    iteration index plus k: lv(name, loop, k) becomes idx(loop) + k, the term a `for i in itertools.count()` / enumerate loop binds."""
+    by_lid = {}
+    for lid, evs, env_ in steps:
+        by_lid.setdefault(lid, []).append(env_)
+    m = {}
+    for lid, envs in by_lid.items():
+        names = set.intersection(*[set(e_) for e_ in envs])
+        for nm in names:
+            lvs = {x for e_ in envs for x in N.walk(e_[nm]) if x[0] == "lv" and x[1] == nm and x[2] == lid} if all(isinstance(e_[nm], tuple) for e_ in envs) else set()
+            if len(lvs) == 1:
+                x = next(iter(lvs))
+                if x[3] is not None and N.is_int(x[3]) and all(e_[nm] == N.mk_add(x, N.const(1)) for e_ in envs):
+                    m[x] = N.mk_add(("idx", lid), x[3])
+    if not m:
+        return paths, steps
+
+    def sub_ev(e):
+        a2 = {k: (N.rebuild(v, m) if isinstance(v, tuple) and v and any(y in m for y in N.walk(v)) else v) for k, v in e.a.items()}
+        u = N.rebuild(e.under, m) if e.under is not None else None
+        return Event(e.kind, a2, e.node, e.trys, e.loops, u, e.raised, e.depth)
+    out = []
+    for p in paths:
+        evs = [sub_ev(e) for e in p.events]
+        o = p.outcome
+        if o[0] == "return" and isinstance(o[1], tuple):
+            o = ("return", N.rebuild(o[1], m))
+        elif o[0] == "raise" and isinstance(o[1], dict) and o[1].get("event") is not None:
+            # the raising event is referred to by identity: keep the link to the rewritten copy
+            for old_e, new_e in zip(p.events, evs):
+                if old_e is o[1]["event"]:
+                    o = ("raise", dict(o[1], event=new_e))
+                    break
+        q = Path(evs, o, {k: (N.rebuild(v, m) if isinstance(v, tuple) else v) for k, v in p.env.items()}, p.closures)
+        out.append(q)
+    steps2 = [(lid, [sub_ev(e) for e in evs], {k: (N.rebuild(v, m) if isinstance(v, tuple) else v) for k, v in env_.items()}) for lid, evs, env_ in steps]
+    return out, steps2
+
+
 def _outer_ites(t):
     """ite sub-terms of t that are not inside a lambda body or a comprehension (whose conditions may mention bound variables)."""
     out = []
@@ -325,8 +365,14 @@ class Summariser:
             elif out[0] in ("break", "continue"):
                 raise AnalysisError("stray %s in %s" % (out[0], fi.qual))
             paths.append(Path(s.events, out, s.env, s.closures))
+        if steps and os.environ.get("SA_NO_UNBOUNDED_CANON") != "1":
+            paths, steps = _induction_variables(paths, steps)
         if os.environ.get("SA_NO_ITE_EXPAND") != "1":
             paths = [q for p_ in paths for q in expand_conditionals(p_)]
+        if os.environ.get("SA_NO_STEP_PATHS") != "1":
+            # the iteration of an unbounded loop that goes on to the next one ends no path of the function; it is listed as a path of its own
+            # (outcome ('continue', loop)), so that rules which collect what a method does see those events too
+            paths = paths + [q for lid, evs, env_ in steps for q in expand_conditionals(Path(list(evs), ("continue", lid), env_, {}))]
         for p_ in paths:
             p_.loop_steps = steps      # [(loop id, events of a generic iteration that goes on to the next one, locals at its end)] of `while True` loops
         if len(paths) > PATH_BOUND:
@@ -731,6 +777,10 @@ class Summariser:
 
     def s_For(self, node, st):
         it = self.expr(node.iter, st)
+        if it[0] == "call" and it[1] in (("attr", ("module", "itertools"), "count"), ("attr", ("free", "itertools"), "count")) and not it[2] and not it[3] \
+                and not node.orelse and os.environ.get("SA_NO_UNBOUNDED_CANON") != "1":
+            # `for i in itertools.count(): body` is `while True: body` with i the 0-based iteration index: one representation for both spellings
+            return self.s_While(node, st, unbounded_for=it)
         lid = st.tick("loop")
         self.emit(st, "LOOP", {"lid": lid, "iter": it, "kind": "for"}, node)
         results = []
@@ -779,9 +829,10 @@ class Summariser:
             v = ("elem", it, lid)
         self.assign(target, v, st, node)
 
-    def s_While(self, node, st):
+    def s_While(self, node, st, unbounded_for=None):
         # `while [not] self.helper(...): body` with a branching helper of the class is `while True: if not (...): break; body`
-        tcall = node.test.operand if isinstance(node.test, ast.UnaryOp) and isinstance(node.test.op, ast.Not) else node.test
+        test_node = ast.copy_location(ast.Constant(value=True), node) if unbounded_for is not None else node.test
+        tcall = test_node.operand if isinstance(test_node, ast.UnaryOp) and isinstance(test_node.op, ast.Not) else test_node
         if isinstance(tcall, ast.Call) and not node.orelse and not getattr(node, "_desugared", False):
             probe = st.fork()
             saved_pending = self.pending
@@ -798,7 +849,7 @@ class Summariser:
                 ast.fix_missing_locations(loop)
                 return self.s_While(loop, st)
         lid = st.tick("loop")
-        c0 = self.expr(node.test, st)
+        c0 = self.expr(test_node, st)
         self.emit(st, "LOOP", {"lid": lid, "iter": c0, "kind": "while"}, node)
         results = []
         if not (N.is_const(c0) and c0[2]):
@@ -811,8 +862,10 @@ class Summariser:
             b.env[nm] = ("lv", nm, lid, b.env.get(nm))
         self._havoc_heap(node.body, b, lid)
         b.loops = b.loops + (lid,)
+        if unbounded_for is not None:
+            self.bind_iter(node.target, unbounded_for, lid, b, node)
         self.emit(b, "ITER", {"lid": lid}, node)
-        c = self.expr(node.test, b)
+        c = self.expr(test_node, b)
         if not N.is_const(c):
             self.emit(b, "ASSUME", {"cond": c}, node)
         for s, out in self.block(node.body, b):
@@ -826,7 +879,7 @@ class Summariser:
                     if hasattr(self, "_steps"):
                         self._steps.append((lid, evs[start:], dict(s.env)))
                     continue
-                c2 = self.expr(node.test, s)
+                c2 = self.expr(test_node, s)
                 self.emit(s, "ASSUME", {"cond": N.mk_not(c2)}, node)
                 self.emit(s, "LOOPEND", {"lid": lid, "how": "exhausted"}, node)
                 results.extend(self.block(node.orelse, s))
